@@ -239,20 +239,26 @@ def guarded_reference(db, text, kind):
     return pickle.loads(b"".join(chunks))
 
 
-def pieces_of(sims, cuts):
-    out, a = [], 0
+def pieces_of(sims, cuts, nl_next=()):
+    """consecutive pieces = exact substrings of the text; at a cut listed in nl_next the newline that ends the END line
+    is the first character of the next piece instead of the last one of this piece"""
+    out, a, carry = [], 0, ""
     for c in list(cuts) + [len(sims) - 1]:
-        out.append("".join(sims[a:c + 1]))
+        t = carry + "".join(sims[a:c + 1])
+        carry = ""
+        if c in nl_next and c != len(sims) - 1 and t.endswith("\n"):
+            t, carry = t[:-1], "\n"
+        out.append(t)
         a = c + 1
     return out
 
 
-def run_split(db, sims, cuts, deliv, sd):
+def run_split(db, sims, cuts, deliv, sd, nl_next=()):
     """-> observation dict; 'per_call' = number of rows each call produced"""
     I = lib.fresh(db)
     try:
         rows, per_call = {}, []
-        pieces = pieces_of(sims, cuts)
+        pieces = pieces_of(sims, cuts, nl_next)
         for k, piece in enumerate(pieces):
             rc = deliver(I, piece, deliv[k % len(deliv)], sd, k)
             if rc != 0:
@@ -401,7 +407,7 @@ def depends_on_earlier(piece):
     return False
 
 
-SO_RE = re.compile(r"^\s*SELECTED_OUTPUT\b", re.I | re.M)
+SO_RE = re.compile(r"(^|;)\s*SELECTED_OUTPUT\b", re.I | re.M)
 
 
 def nontrivial(obs):
@@ -469,7 +475,7 @@ def _check_case(case, ctx):
             ctx.begin(case)         # heartbeat for the driver's per-case watchdog (an "all" case is up to 64 split runs)
         d = deliv if case["cuts"] != "all" else [deliv[(ci + j) % len(deliv)] for j in range(len(cuts) + 1)]
         d = [d[j % len(d)] for j in range(len(cuts) + 1)]
-        obs = run_split(db, sims, cuts, d, sd)
+        obs = run_split(db, sims, cuts, d, sd, case.get("nl_next", ()))
         tag = "cuts=%r deliv=%s" % (cuts, "".join(d))
         compare(ref, obs, tag)
         t, ta, tb = nontrivial(obs)
@@ -529,12 +535,18 @@ def example_case(draw, names):
 def gen_case(draw, exhaustive=False):
     prog = draw(G.program(MAX_EXH + 1 if exhaustive else 8))
     nb = len(prog["sims"]) - 1
+    nl_next = []
+    if draw(st.integers(0, 2)) > 0:       # text layer: the same chemistry in another documented layout
+        prog["sims"], lf = draw(G.layout(prog["sims"]))
+        prog["feats"] = prog["feats"] + lf
+        nl_next = draw(st.lists(st.integers(0, max(nb - 1, 0)), max_size=3, unique=True))
     if exhaustive:
         deliv = draw(st.lists(st.sampled_from(METHODS), min_size=5, max_size=5))
         cuts = "all"
     else:
         cuts, deliv = draw(cut_and_delivery(nb))
-    return {"kind": "gen", "db": prog["db"], "sims": prog["sims"], "feats": prog["feats"], "cuts": cuts, "deliv": deliv}
+    return {"kind": "gen", "db": prog["db"], "sims": prog["sims"], "feats": prog["feats"], "cuts": cuts, "deliv": deliv,
+            "nl_next": sorted(nl_next)}
 
 
 def enumerate_examples(ctx, names):
